@@ -318,6 +318,7 @@ pub struct Interp<'a> {
     policy_diverged: bool,
     metrics_bad_before_clear: bool,
     interposed_then_clear: bool,
+    interposed_before_check: bool,
     interposed_then_lookup: bool,
     all_deadlines: Vec<i64>,
     interposed_serial_base: u32,
@@ -423,6 +424,7 @@ impl<'a> Interp<'a> {
             policy_diverged: false,
             metrics_bad_before_clear: false,
             interposed_then_clear: false,
+            interposed_before_check: false,
             interposed_then_lookup: false,
             all_deadlines: Vec::new(),
             interposed_serial_base: 0,
@@ -2152,7 +2154,9 @@ impl<'a> Interp<'a> {
         // sweep is outside the schedule-free quantifiers of C03-C05)
         self.absorb_nested();
         let now = self.m.now;
-        let skip = self.in_interposed_op;
+        // (a client action that lands *before* the sweep looks at a key is different: the sweep
+        // then sees the entry as the client left it, and must judge that one)
+        let skip = self.in_interposed_op && !self.interposed_before_check;
         for e in log.iter().filter(|_| !skip) {
             if let Ev::Evict(v, index, ..) = e {
                 if let Some(i) = self.vals.get(v).cloned() {
@@ -2261,6 +2265,7 @@ impl<'a> Interp<'a> {
         if matches!(then, Op::Interpose { .. } | Op::Wait | Op::Drain { .. }) {
             return;
         }
+        let before_check = at == "cleanup.before_check";
         self.desync("interposition");
         self.feats.interposed += 1;
         self.interposed_serial_base = self.serial.get();
@@ -2366,6 +2371,7 @@ impl<'a> Interp<'a> {
         let then = then.clone();
         self.in_interposed_op = true;
         self.interposed_then_clear = matches!(then, Op::Clear { .. });
+        self.interposed_before_check = before_check;
         self.interposed_then_lookup = matches!(then, Op::Get { .. } | Op::GetMut { .. } | Op::GetHold { .. } | Op::GetTtl { .. });
         self.exec_inner(&then);
         self.in_interposed_op = false;
@@ -2374,6 +2380,7 @@ impl<'a> Interp<'a> {
         self.absorb_nested();
         self.interposed_then_clear = false;
         self.interposed_then_lookup = false;
+        self.interposed_before_check = false;
         let log = self.sut.take_log();
         self.note_events(&log);
         self.check_invariants("after interposed step");
